@@ -145,6 +145,40 @@ def rule_sites(ctx, rule_id):
                 total += 1
                 r.inst("%s: counter/offset addition (%s)" % (f.path, t["optys"][0]))
                 r.unproven.append("%s: addition on %s (bounded by input length)" % (f.path, t["optys"][0]))
+    # index-taking container APIs that panic out of range (none today): a
+    # call with no comparison at all on the way to it is a violation, a
+    # guarded one is listed for review
+    PANICKY = ("drain", "split_off", "remove", "insert", "swap_remove",
+               "split_at", "split_at_mut", "copy_from_slice", "clone_from_slice",
+               "swap", "rotate_left", "rotate_right", "splice", "replace_range",
+               "split_first", "chunks", "windows", "step_by")
+    napi = 0
+    for f in prog.hand_fns():
+        if f.from_expansion:
+            continue
+        for c in f.calls():
+            if c.is_ptr:
+                continue
+            name = (c.res or c.declared or "").split("::")[-1]
+            if name not in PANICKY:
+                continue
+            a0 = (c.argtys[0] if c.argtys else "").replace("&mut ", "").replace("&", "")
+            if not (a0.startswith(("std::vec::Vec<", "[", "std::string::String", "std::collections::VecDeque<"))):
+                continue
+            napi += 1
+            rels = dominating_relations(f, c.bb)
+            flag = guards.flag_guard_of(f, c.bb)
+            desc = "%s: %s::%s" % (f.path, a0.split("<")[0].split("::")[-1], name)
+            if rels or flag:
+                r.inst(desc + " — guarded by %s" % ([guards.rel_str(*x) for x in rels[:3]] or "a flag"))
+                r.unproven.append(desc + " guarded, not discharged, at %s" % c.loc)
+            else:
+                r.inst(desc + " — no guard on any path")
+                r.fail("%s | unguarded %s on %s" % (f.path, name, a0.split("<")[0].split("::")[-1]),
+                       "%s calls `%s`, which panics when its index/range is "
+                       "out of bounds, and no comparison guards the call on "
+                       "any path" % (f.path, name), where=c.loc)
+    r.notes.append("index-taking panicking container APIs in hand-written code: %d" % napi)
     r.notes.append("named invariants for unproven sites: collect => at least "
                    "one pattern item (R13.4); slot offsets increasing and in "
                    "range (lexer); line/column counters bounded by input length")
